@@ -8,6 +8,15 @@ import (
 	"math/big"
 )
 
+func c13Sym(name string, bits uint, signed bool) *big.Int {
+	max := new(big.Int).Sub(new(big.Int).Lsh(big.NewInt(1), bits), big.NewInt(1))
+	lo := new(big.Int)
+	if signed {
+		lo = new(big.Int).Neg(max)
+	}
+	return vNondetBigRange(name, lo, max)
+}
+
 var (
 	c13T = new(big.Int).Exp(big.NewInt(10), big.NewInt(18), nil)
 	c13S = new(big.Int).Exp(big.NewInt(10), big.NewInt(36), nil)
@@ -15,11 +24,8 @@ var (
 
 // MonotonicSqrt (18 decimals): least r >= 0 with r^2 >= d; monotone; negative input is an error; argument untouched.
 func VH_C13_MonotonicSqrt() {
-	a := vNondetBig("a")
-	b := vNondetBig("b")
-	lim := new(big.Int).Lsh(big.NewInt(1), 315)
-	vAssume(a.Sign() >= 0 && a.Cmp(lim) < 0)
-	vAssume(b.Sign() >= 0 && b.Cmp(lim) < 0)
+	a := c13Sym("a", 315, false)
+	b := c13Sym("b", 315, false)
 	da := NewDecFromBigIntWithPrec(new(big.Int).Set(a), 18)
 	db := NewDecFromBigIntWithPrec(new(big.Int).Set(b), 18)
 	vReach("reach")
@@ -39,11 +45,8 @@ func VH_C13_MonotonicSqrt() {
 }
 
 func VH_C13_MonotonicSqrtBigDec() {
-	a := vNondetBig("a")
-	b := vNondetBig("b")
-	lim := new(big.Int).Lsh(big.NewInt(1), 1024)
-	vAssume(a.Sign() >= 0 && a.Cmp(lim) < 0)
-	vAssume(b.Sign() >= 0 && b.Cmp(lim) < 0)
+	a := c13Sym("a", 1024, false)
+	b := c13Sym("b", 1024, false)
 	da := BigDec{i: new(big.Int).Set(a)}
 	db := BigDec{i: new(big.Int).Set(b)}
 	vReach("reach")
@@ -63,8 +66,8 @@ func VH_C13_MonotonicSqrtBigDec() {
 }
 
 func VH_C13_SqrtNegativeIsError() {
-	a := vNondetBig("a")
-	vAssume(a.Sign() < 0 && a.CmpAbs(new(big.Int).Lsh(big.NewInt(1), 315)) < 0)
+	a := c13Sym("a", 315, true)
+	vAssume(a.Sign() < 0)
 	vReach("reach")
 	_, e1 := MonotonicSqrt(NewDecFromBigIntWithPrec(new(big.Int).Set(a), 18))
 	vAssert(e1 != nil, "Dec:error")
@@ -77,11 +80,8 @@ func VH_C13_SqrtNegativeIsError() {
 // ---------------------------------------------------------------- tolerance comparison
 
 func c13Tolerance() (ErrTolerance, *big.Int, *big.Int, bool, bool) {
-	add := vNondetBig("tolAdd")
-	mul := vNondetBig("tolMul")
-	lim := new(big.Int).Lsh(big.NewInt(1), 128)
-	vAssume(add.Sign() >= 0 && add.Cmp(lim) < 0)
-	vAssume(mul.Sign() >= 0 && mul.Cmp(lim) < 0)
+	add := c13Sym("tolAdd", 128, false)
+	mul := c13Sym("tolMul", 128, false)
 	hasAdd := vNondetBool("hasAdd")
 	hasMul := vNondetBool("hasMul")
 	dir := RoundingDirection(vChoose("dir", 4))
@@ -99,10 +99,8 @@ func c13Tolerance() (ErrTolerance, *big.Int, *big.Int, bool, bool) {
 // a non-zero result carries the sign of expected-actual.
 func VH_C13_CompareBigDec() {
 	tol, add, mul, hasAdd, hasMul := c13Tolerance()
-	x := vNondetBig("expected")
-	y := vNondetBig("actual")
-	lim := new(big.Int).Lsh(big.NewInt(1), 512)
-	vAssume(x.CmpAbs(lim) < 0 && y.CmpAbs(lim) < 0)
+	x := c13Sym("expected", 512, true)
+	y := c13Sym("actual", 512, true)
 	vReach("reach")
 	res := tol.CompareBigDec(BigDec{i: new(big.Int).Set(x)}, BigDec{i: new(big.Int).Set(y)})
 	diff := new(big.Int).Abs(new(big.Int).Sub(x, y))
@@ -111,14 +109,15 @@ func VH_C13_CompareBigDec() {
 		vAssert(tol.RoundingDir != RoundUp || x.Cmp(y) <= 0, "zero:round-up-side")
 		// additive tolerance is an 18-decimal value compared at 36 decimals
 		vAssert(!hasAdd || diff.Cmp(new(big.Int).Mul(add, c13T)) <= 0, "zero:additive-met")
-		if hasMul && mul.Sign() != 0 && !(hasAdd && add.Sign() == 0 && x.Cmp(y) == 0) {
+		if hasMul && mul.Sign() != 0 && diff.Sign() != 0 {
 			mn := new(big.Int).Abs(x)
 			if y.CmpAbs(x) < 0 {
 				mn = new(big.Int).Abs(y)
 			}
-			// diff/min <= mul up to the half-ulp of the banker's division: 2*diff*10^36 <= (2*mul*10^18+1)*min
-			lhs := new(big.Int).Lsh(new(big.Int).Mul(diff, c13S), 1)
-			rhs := new(big.Int).Mul(new(big.Int).Add(new(big.Int).Lsh(new(big.Int).Mul(mul, c13T), 1), big.NewInt(1)), mn)
+			// diff/min <= mul up to one 36-decimal unit (the quotient is truncated at 72 decimals, then rounded
+			// half-even): diff*10^36 <= (mul*10^18 + 1) * min
+			lhs := new(big.Int).Mul(diff, c13S)
+			rhs := new(big.Int).Mul(new(big.Int).Add(new(big.Int).Mul(mul, c13T), big.NewInt(1)), mn)
 			vAssert(mn.Sign() != 0, "zero:multiplicative-min-nonzero")
 			vAssert(lhs.Cmp(rhs) <= 0, "zero:multiplicative-met")
 		}
@@ -131,10 +130,8 @@ func VH_C13_CompareBigDec() {
 
 func VH_C13_CompareDec() {
 	tol, add, _, hasAdd, _ := c13Tolerance()
-	x := vNondetBig("expected")
-	y := vNondetBig("actual")
-	lim := new(big.Int).Lsh(big.NewInt(1), 250)
-	vAssume(x.CmpAbs(lim) < 0 && y.CmpAbs(lim) < 0)
+	x := c13Sym("expected", 250, true)
+	y := c13Sym("actual", 250, true)
 	vReach("reach")
 	res := tol.CompareDec(NewDecFromBigIntWithPrec(new(big.Int).Set(x), 18), NewDecFromBigIntWithPrec(new(big.Int).Set(y), 18))
 	diff := new(big.Int).Abs(new(big.Int).Sub(x, y))
@@ -150,10 +147,8 @@ func VH_C13_CompareDec() {
 
 func VH_C13_CompareInt() {
 	tol, add, _, hasAdd, _ := c13Tolerance()
-	x := vNondetBig("expected")
-	y := vNondetBig("actual")
-	lim := new(big.Int).Lsh(big.NewInt(1), 190)
-	vAssume(x.CmpAbs(lim) < 0 && y.CmpAbs(lim) < 0)
+	x := c13Sym("expected", 190, true)
+	y := c13Sym("actual", 190, true)
 	vReach("reach")
 	res := tol.Compare(NewIntFromBigInt(new(big.Int).Set(x)), NewIntFromBigInt(new(big.Int).Set(y)))
 	diff := new(big.Int).Abs(new(big.Int).Sub(x, y))
@@ -169,53 +164,65 @@ func VH_C13_CompareInt() {
 
 // ---------------------------------------------------------------- binary searches
 
-// The searched function is arbitrary (a fresh unconstrained value per call): the post-condition
-// "the returned input's image compares as 0 to the target, otherwise an error is returned"
-// must hold whatever f does; estimates stay inside [lo, hi]; at most maxIterations calls.
+// The searched function is arbitrary (a fresh unconstrained value per call). With an exact tolerance
+// (additive tolerance zero) and each rounding direction: a successful search returns the last evaluated input and
+// that input's image compares as 0 to the target; a failed one used exactly maxIterations evaluations and its last
+// image did not meet the tolerance; every estimate is the midpoint of the current interval, which only shrinks
+// on the side the comparison indicates.
 func VH_C13_BinarySearchBigDec() {
-	tol, _, _, _, _ := c13Tolerance()
-	lo, hi, target := vNondetBig("lo"), vNondetBig("hi"), vNondetBig("target")
+	lo, hi, target := c13Sym("lo", 256, false), c13Sym("hi", 256, false), c13Sym("target", 256, true)
 	lim := new(big.Int).Lsh(big.NewInt(1), 256)
-	vAssume(lo.Sign() >= 0 && lo.Cmp(hi) <= 0 && hi.Cmp(lim) < 0 && target.CmpAbs(lim) < 0)
-	maxIter := vChoose("maxIter", 4)
-	vConfig("unwind", 6)
+	vAssume(lo.Cmp(hi) <= 0)
+	maxIter := vChoose("maxIter", 5)
+	tol := ErrTolerance{AdditiveTolerance: ZeroDec(), RoundingDir: RoundingDirection(vChoose("dir", 3))}
+	vConfig("unwind", 8)
 	calls := 0
 	var lastIn, lastOut *big.Int
+	curLo, curHi := new(big.Int).Set(lo), new(big.Int).Set(hi)
 	f := func(x BigDec) BigDec {
+		// the verdict on the previous evaluation narrows the interval on the indicated side
+		if calls > 0 {
+			if tol.CompareBigDec(BigDec{i: new(big.Int).Set(target)}, BigDec{i: new(big.Int).Set(lastOut)}) < 0 {
+				curHi = lastIn
+			} else {
+				curLo = lastIn
+			}
+		}
 		calls++
+		mid := new(big.Int).Rsh(new(big.Int).Add(curLo, curHi), 1)
+		vAssert(x.i.Cmp(mid) == 0, "estimate-is-midpoint-of-current-interval")
 		vAssert(x.i.Cmp(lo) >= 0 && x.i.Cmp(hi) <= 0, "estimate-within-bounds")
-		out := vNondetBig(fmt.Sprintf("f_%d", calls))
-		vAssume(out.CmpAbs(lim) < 0)
+		out := vNondetBigRange(fmt.Sprintf("f_%d", calls), new(big.Int).Neg(lim), lim)
 		lastIn, lastOut = new(big.Int).Set(x.i), out
 		return BigDec{i: new(big.Int).Set(out)}
 	}
 	vReach("reach")
 	est, err := BinarySearchBigDec(f, BigDec{i: new(big.Int).Set(lo)}, BigDec{i: new(big.Int).Set(hi)}, BigDec{i: new(big.Int).Set(target)}, tol, maxIter)
-	vAssert(calls <= maxIter, "at-most-maxIterations-calls")
+	vAssert(calls <= maxIter, "at-most-maxIterations-evaluations")
 	if err == nil {
 		vAssert(calls >= 1, "success:evaluated")
 		vAssert(est.i.Cmp(lastIn) == 0, "success:returns-last-evaluated-input")
 		vAssert(tol.CompareBigDec(BigDec{i: new(big.Int).Set(target)}, BigDec{i: new(big.Int).Set(lastOut)}) == 0, "success:image-meets-tolerance")
 	} else {
 		vAssert(calls == maxIter, "failure:only-after-maxIterations")
+		vAssert(calls == 0 || tol.CompareBigDec(BigDec{i: new(big.Int).Set(target)}, BigDec{i: new(big.Int).Set(lastOut)}) != 0, "failure:last-image-missed-tolerance")
 	}
 }
 
 func VH_C13_BinarySearchInt() {
-	tol, _, _, _, _ := c13Tolerance()
-	lo, hi, target := vNondetBig("lo"), vNondetBig("hi"), vNondetBig("target")
+	lo, hi, target := c13Sym("lo", 128, false), c13Sym("hi", 128, false), c13Sym("target", 128, true)
 	lim := new(big.Int).Lsh(big.NewInt(1), 128)
-	vAssume(lo.Sign() >= 0 && lo.Cmp(hi) <= 0 && hi.Cmp(lim) < 0 && target.CmpAbs(lim) < 0)
-	maxIter := vChoose("maxIter", 4)
-	vConfig("unwind", 6)
+	vAssume(lo.Cmp(hi) <= 0)
+	maxIter := vChoose("maxIter", 5)
+	tol := ErrTolerance{AdditiveTolerance: ZeroDec(), RoundingDir: RoundingDirection(vChoose("dir", 3))}
+	vConfig("unwind", 8)
 	calls := 0
 	var lastIn, lastOut *big.Int
 	ferr := vNondetBool("ferr")
 	f := func(x Int) (Int, error) {
 		calls++
 		vAssert(x.BigIntMut().Cmp(lo) >= 0 && x.BigIntMut().Cmp(hi) <= 0, "estimate-within-bounds")
-		out := vNondetBig(fmt.Sprintf("f_%d", calls))
-		vAssume(out.CmpAbs(lim) < 0)
+		out := vNondetBigRange(fmt.Sprintf("f_%d", calls), new(big.Int).Neg(lim), lim)
 		lastIn, lastOut = new(big.Int).Set(x.BigIntMut()), out
 		if ferr && calls == 2 {
 			return Int{}, fmt.Errorf("f failed")
@@ -224,27 +231,26 @@ func VH_C13_BinarySearchInt() {
 	}
 	vReach("reach")
 	est, err := BinarySearch(f, NewIntFromBigInt(new(big.Int).Set(lo)), NewIntFromBigInt(new(big.Int).Set(hi)), NewIntFromBigInt(new(big.Int).Set(target)), tol, maxIter)
-	vAssert(calls <= maxIter, "at-most-maxIterations-calls")
+	vAssert(calls <= maxIter, "at-most-maxIterations-evaluations")
 	if err == nil {
 		vAssert(calls >= 1, "success:evaluated")
 		vAssert(est.BigIntMut().Cmp(lastIn) == 0, "success:returns-last-evaluated-input")
 		vAssert(tol.Compare(NewIntFromBigInt(new(big.Int).Set(target)), NewIntFromBigInt(new(big.Int).Set(lastOut))) == 0, "success:image-meets-tolerance")
 	} else {
 		vAssert(calls == maxIter || (ferr && calls == 2), "failure:only-after-maxIterations-or-f-error")
+		vAssert(calls == 0 || (ferr && calls == 2) || tol.Compare(NewIntFromBigInt(new(big.Int).Set(target)), NewIntFromBigInt(new(big.Int).Set(lastOut))) != 0, "failure:last-image-missed-tolerance")
 	}
 }
 
 // ---------------------------------------------------------------- domains: loud failure outside
 
 func VH_C13_Exp2Domain() {
-	e := vNondetBig("e")
-	vAssume(e.CmpAbs(new(big.Int).Lsh(big.NewInt(1), 400)) < 0)
+	e := c13Sym("e", 400, true)
 	max := new(big.Int).Mul(big.NewInt(512), c13S)
 	vAssume(e.Sign() < 0 || e.Cmp(max) > 0)
 	vReach("reach")
 	vAssert(vPanics(func() { Exp2(BigDec{i: new(big.Int).Set(e)}) }), "Exp2:panics-outside-[0,2^9]")
-	x := vNondetBig("x")
-	vAssume(x.CmpAbs(new(big.Int).Lsh(big.NewInt(1), 400)) < 0)
+	x := c13Sym("x", 400, true)
 	vAssume(x.Sign() < 0 || x.Cmp(c13S) > 0)
 	vAssert(vPanics(func() { exp2ChebyshevRationalApprox(BigDec{i: new(big.Int).Set(x)}) }), "approx:panics-outside-[0,1]")
 }
@@ -253,10 +259,10 @@ func VH_C13_Exp2Domain() {
 func VH_C13_Exp2Structure() {
 	ks := []int64{0, 1, 2, 63, 64, 511}
 	k := ks[vChoose("k", len(ks))]
-	f := vNondetBig("f")
-	vAssume(f.Sign() >= 0 && f.Cmp(c13S) < 0)
+	f := vNondetBigRange("f", new(big.Int), new(big.Int).Sub(c13S, big.NewInt(1)))
 	e := new(big.Int).Add(new(big.Int).Mul(big.NewInt(k), c13S), f)
 	vConfig("unwind", 10)
+	vConfig("lazy", 1)
 	vReach("reach")
 	var got BigDec
 	p := vPanics(func() { got = Exp2(BigDec{i: new(big.Int).Set(e)}) })
@@ -274,41 +280,50 @@ func VH_C13_Exp2Structure() {
 }
 
 var c13PowStubOut *big.Int
-var c13PowStubCalls int
 
+// contract stub: PowApprox as an arbitrary (but fixed) value; natively the real PowApprox runs on both sides.
 func c13PowApproxStub(base Dec, exp Dec, precision Dec) Dec {
-	c13PowStubCalls++
 	return NewDecFromBigIntWithPrec(new(big.Int).Set(c13PowStubOut), 18)
 }
 
-// Pow: invalid bases fail loudly; Pow(base, n + frac) = base^n * PowApprox(base, frac) (PowApprox cut out:
-// its series accuracy is outside the claim), Pow(base, n) = base^n exactly as Dec.Power computes it.
-func VH_C13_PowStructure() {
-	b := vNondetBig("base")
+// Pow: invalid bases fail loudly.
+func VH_C13_PowDomain() {
+	b := c13Sym("base", 200, true)
 	two := new(big.Int).Mul(big.NewInt(2), c13T)
-	vAssume(b.CmpAbs(new(big.Int).Lsh(big.NewInt(1), 200)) < 0)
+	vAssume(b.Sign() <= 0 || b.Cmp(two) >= 0)
+	e := c13Sym("exp", 80, false)
+	vReach("reach")
+	vAssert(vPanics(func() {
+		Pow(NewDecFromBigIntWithPrec(new(big.Int).Set(b), 18), NewDecFromBigIntWithPrec(new(big.Int).Set(e), 18))
+	}), "panics-when-base-outside-(0,2)")
+	vAssert(vPanics(func() {
+		PowApprox(NewDecFromBigIntWithPrec(new(big.Int).Neg(new(big.Int).Abs(b)), 18), NewDecFromBigIntWithPrec(new(big.Int).Set(e), 18), GetPowPrecision())
+	}), "PowApprox:panics-when-base-not-positive")
+}
+
+// Pow(base, n + frac) = base^n * PowApprox(base, frac) (PowApprox itself is cut out: its series accuracy is
+// outside the claim), Pow(base, n) = base^n exactly as Dec.Power computes it; the base is left untouched.
+func VH_C13_PowStructure() {
+	two := new(big.Int).Mul(big.NewInt(2), c13T)
+	b := vNondetBigRange("base", big.NewInt(1), new(big.Int).Sub(two, big.NewInt(1)))
 	n := int64(vChoose("n", 4))
-	fr := vNondetBig("frac")
-	vAssume(fr.Sign() >= 0 && fr.Cmp(c13T) < 0)
+	fr := vNondetBigRange("frac", new(big.Int), new(big.Int).Sub(c13T, big.NewInt(1)))
 	exp := new(big.Int).Add(new(big.Int).Mul(big.NewInt(n), c13T), fr)
-	c13PowStubOut = vNondetBig("powapprox")
-	vAssume(c13PowStubOut.Sign() >= 0 && c13PowStubOut.Cmp(new(big.Int).Mul(big.NewInt(4), c13T)) < 0)
+	c13PowStubOut = vNondetBigRange("powapprox", new(big.Int), new(big.Int).Mul(big.NewInt(4), c13T))
 	vOverride("github.com/osmosis-labs/osmosis/osmomath.PowApprox", c13PowApproxStub)
 	vReach("reach")
 	base := NewDecFromBigIntWithPrec(new(big.Int).Set(b), 18)
 	var got Dec
 	p := vPanics(func() { got = Pow(base, NewDecFromBigIntWithPrec(new(big.Int).Set(exp), 18)) })
-	valid := b.Sign() > 0 && b.Cmp(two) < 0
-	vAssert(p == !valid, "panics-iff-base-outside-(0,2)")
+	vAssert(!p, "no-panic-inside-domain")
 	if !p {
 		ip := NewDecFromBigIntWithPrec(new(big.Int).Set(b), 18).Power(uint64(n))
 		if fr.Sign() == 0 {
 			vAssert(got.BigIntMut().Cmp(ip.BigIntMut()) == 0, "integer-exponent:exact-power")
-			vAssert(c13PowStubCalls == 0, "integer-exponent:no-approximation")
 		} else {
-			want := ip.Mul(NewDecFromBigIntWithPrec(new(big.Int).Set(c13PowStubOut), 18))
+			fp := PowApprox(NewDecFromBigIntWithPrec(new(big.Int).Set(b), 18), NewDecFromBigIntWithPrec(new(big.Int).Set(fr), 18), GetPowPrecision())
+			want := ip.Mul(fp)
 			vAssert(got.BigIntMut().Cmp(want.BigIntMut()) == 0, "integer-times-fractional")
-			vAssert(c13PowStubCalls == 1, "fractional:one-approximation")
 		}
 		vAssert(base.BigIntMut().Cmp(b) == 0, "base-untouched")
 	}
@@ -317,8 +332,7 @@ func VH_C13_PowStructure() {
 
 // logarithms: non-positive input fails loudly
 func VH_C13_LogDomain() {
-	x := vNondetBig("x")
-	vAssume(x.Sign() <= 0 && x.CmpAbs(new(big.Int).Lsh(big.NewInt(1), 400)) < 0)
+	x := vNondetBigRange("x", new(big.Int).Neg(new(big.Int).Lsh(big.NewInt(1), 400)), new(big.Int))
 	vReach("reach")
 	vAssert(vPanics(func() { BigDec{i: new(big.Int).Set(x)}.LogBase2() }), "LogBase2")
 	vAssert(vPanics(func() { BigDec{i: new(big.Int).Set(x)}.Ln() }), "Ln")
@@ -328,8 +342,7 @@ func VH_C13_LogDomain() {
 
 // SigFigRound: for 0 < d the result differs from d by at most half a unit of the last kept digit.
 func VH_C13_SigFigRound() {
-	b := vNondetBig("d")
-	vAssume(b.Sign() > 0 && b.Cmp(new(big.Int).Lsh(big.NewInt(1), 160)) < 0)
+	b := vNondetBigRange("d", big.NewInt(1), new(big.Int).Lsh(big.NewInt(1), 160))
 	s := int64(vChoose("s", 3))*4 + 1 // 1, 5, 9 significant figures
 	ten := new(big.Int).Exp(big.NewInt(10), big.NewInt(s), nil)
 	vConfig("unwind", 24)
